@@ -5,4 +5,5 @@ cd "$(dirname "$0")"
 export CARGO_NET_OFFLINE=true
 mkdir -p target evidence
 ( cd harness && cargo build --offline --features hooks --bin lolv )
+( cd harness && cargo build --offline --features int,hooks --bin lolv-int )
 echo setup done
